@@ -4,6 +4,7 @@ import (
 	"crypto/sha256"
 	"fmt"
 
+	blsu "github.com/protolambda/bls12-381-util"
 	"github.com/protolambda/zrnt/eth2/beacon/altair"
 	"github.com/protolambda/zrnt/eth2/beacon/bellatrix"
 	"github.com/protolambda/zrnt/eth2/beacon/capella"
@@ -120,6 +121,37 @@ type Deposit struct {
 	MsgRoot    string `json:"msg_root"`
 	ProofIndex int    `json:"proof_index"`
 	ProofRoot  string `json:"proof_root"`
+	// SigShape classifies the signature BYTES: "zero" / "ff" (all bytes 0x00 / 0xff), "infinity" (the G2 point at
+	// infinity), "undecodable" (any other bytes that are not a G2 point), "decodable".  SigParses = decodable or
+	// infinity.  The specification never looks at the signature of a top-up, whatever its shape.
+	SigShape  string `json:"sig_shape"`
+	SigParses bool   `json:"sig_parses"`
+}
+
+// SigShapeOf classifies signature bytes (see Deposit.SigShape).
+func SigShapeOf(sig common.BLSSignature) (string, bool) {
+	allEq := func(x byte) bool {
+		for _, b := range sig {
+			if b != x {
+				return false
+			}
+		}
+		return true
+	}
+	var sg blsu.Signature
+	raw := [96]byte(sig)
+	parses := sg.Deserialize(&raw) == nil
+	switch {
+	case allEq(0):
+		return "zero", parses
+	case allEq(0xff):
+		return "ff", parses
+	case sig == infinitySig:
+		return "infinity", parses
+	case !parses:
+		return "undecodable", false
+	}
+	return "decodable", true
 }
 
 type Exit struct {
@@ -383,9 +415,10 @@ func AbstractBlock(spec *common.Spec, env *common.BeaconBlockEnvelope, c *BlockC
 		mr := DepositMessageRoot(&d.Data)
 		idx := c.DepositIndex + uint64(i)
 		pr := DepositProofRoot(d, idx)
+		shape, parses := SigShapeOf(d.Data.Signature)
 		b.Deposits = append(b.Deposits, Deposit{Pk: ID(d.Data.Pubkey[:]), Wc: Credentials(d.Data.WithdrawalCredentials),
 			Amount: p.num(uint64(d.Data.Amount), "deposit amount"), Sig: AbstractSig(c.Sigs, d.Data.Signature), MsgRoot: ID(mr[:]),
-			ProofIndex: p.num(idx, "deposit index"), ProofRoot: ID(pr[:])})
+			ProofIndex: p.num(idx, "deposit index"), ProofRoot: ID(pr[:]), SigShape: shape, SigParses: parses})
 	}
 	for i := range exits {
 		e := &exits[i]
